@@ -22,7 +22,6 @@ UNITS = {
     "optimizer_helpers": ("src/optimizer/mod.rs", "optimizer::verif_kani_optimizer_helpers", []),
     "vector_ops": ("src/vector_ops.rs", "vector_ops::verif_kani_vector_ops", []),
     "validator": ("src/schema/validator.rs", "schema::validator::verif_kani_validator", ["-Z", "stubbing"]),
-    "consolidate": ("src/storage/persist/consolidate.rs", "storage::persist::consolidate::verif_kani_consolidate", []),
 }
 
 
